@@ -329,6 +329,8 @@ fn families(quick: bool) -> Vec<LmFamily> {
         Dom::Real(-5.0, -1.0),
         Dom::Real(0.0, 3.0),
         Dom::Real(-2.0, 0.0),
+        Dom::Real(f64::NEG_INFINITY, -1.0),
+        Dom::Real(1.0, f64::INFINITY),
         Dom::NonNegB(0.0, 0.0),
         Dom::Bool,
         Dom::Int(-3, 2),
